@@ -108,6 +108,47 @@ func runC07(c *core.Ctx) {
 	if crowd && t.Chance(1, 2) {
 		sim.lockstep = 1 + t.Intn(4)
 	}
+	if c.Config == "direct" && t.Chance(1, 12) {
+		// constructors: every thread builds its OWN random sequencers (one per stream, as an SFU does when tracks are
+		// added concurrently); whatever the constructor shares between calls, each first value must be below 2^15
+		firsts := make([][]uint16, nth)
+		for i := 0; i < nth; i++ {
+			i := i
+			k := 1 + t.Intn(4)
+			sim.spawn(func(th *simThread) {
+				for j := 0; j < k; j++ {
+					sim.yield(-1)
+					th.inOp = true
+					c.Guard("rtp.NewRandomSequencer", func() {
+						firsts[i] = append(firsts[i], rtp.NewRandomSequencer().NextSequenceNumber())
+					})
+					th.inOp = false
+				}
+			})
+		}
+		c.Logf("config=%s constructors: %d threads", c.Config, nth)
+		sim.run()
+		if sim.livelock {
+			return
+		}
+		if sim.deadlock {
+			c.Violate("deadlock", "C07/deadlock", "no runnable thread while some are blocked (constructors)")
+			return
+		}
+		if sim.preemptOps > 0 {
+			c.Fingerprint(sim.fp, 0xC0)
+		}
+		c.Probe("concurrent-constructors")
+		for i := range firsts {
+			for _, v := range firsts[i] {
+				if v >= 1<<15 {
+					c.Violate("start", "C07/start/random-not-below-2^15", "a random sequencer built while other threads were building theirs starts at %d, not below 2^15", v)
+					return
+				}
+			}
+		}
+		return
+	}
 	// start value
 	random := !long && t.Chance(1, 5)
 	var start uint16
